@@ -101,6 +101,7 @@ type loopInfo struct {
 	phiSyms map[*ssa.Phi]*sym
 	rangeIdx *ssa.Phi
 	backs    []backRec
+	closed   bool
 }
 
 type backRec struct {
@@ -164,6 +165,8 @@ type frame struct {
 	rangeSt map[*ssa.Range]*rangeRec
 	callPos map[string][]token.Pos
 	curOrd  int
+	curBlock *ssa.BasicBlock
+	curIdx   int
 }
 
 type rangeRec struct {
@@ -815,6 +818,9 @@ func (w *World) verifyFunction(fn *ssa.Function, c *Contract) (vc *FnVC, err err
 		}
 	}()
 	vc.safety = c.Safety
+	if c.Variant != "" {
+		vc.fnName += "@" + c.Variant
+	}
 	if c.Interf != "" {
 		d := w.defs[c.Interf]
 		if d == nil || d.Kind != "pred" || !d.TwoState {
@@ -908,7 +914,17 @@ func (w *World) verifyFunction(fn *ssa.Function, c *Contract) (vc *FnVC, err err
 			o.Trivial = false
 		}
 	}
+	loopKeys := map[int]bool{}
 	for k := range c.LoopInv {
+		loopKeys[k] = true
+	}
+	for k := range c.LoopStep {
+		loopKeys[k] = true
+	}
+	for k := range c.LoopMod {
+		loopKeys[k] = true
+	}
+	for k := range loopKeys {
 		found := false
 		for _, li := range f.loops {
 			if li.ordinal == k {
@@ -1091,6 +1107,16 @@ func (f *frame) run(st *state, entryReach string) {
 	vc := f.vc
 	fn := f.fn
 	order := forwardOrder(fn)
+	visited := map[*ssa.BasicBlock]bool{}
+	inOrder := map[*ssa.BasicBlock]bool{}
+	for _, b := range order {
+		inOrder[b] = true
+	}
+	for _, b := range fn.Blocks {
+		if !inOrder[b] {
+			visited[b] = true // unreachable over forward edges (e.g. the recover block)
+		}
+	}
 	for _, b := range order {
 		var cur *state
 		var reach string
@@ -1113,6 +1139,8 @@ func (f *frame) run(st *state, entryReach string) {
 				preds = append(preds, p)
 			}
 			if len(conds) == 0 {
+				visited[b] = true
+				f.closeLoops(visited)
 				continue
 			}
 			reach = vc.define(fmt.Sprintf("reach_b%d", b.Index), "Bool", or(conds...))
@@ -1133,8 +1161,10 @@ func (f *frame) run(st *state, entryReach string) {
 		}
 		f.reach[b] = reach
 		f.execBlock(b, cur, reach)
+		visited[b] = true
+		f.closeLoops(visited)
 	}
-	f.closeLoops()
+	f.closeLoops(nil)
 }
 
 func (f *frame) mergePhi(phi *ssa.Phi, b *ssa.BasicBlock, preds []*ssa.BasicBlock, conds []string) *sym {
@@ -1155,6 +1185,22 @@ func (f *frame) mergePhi(phi *ssa.Phi, b *ssa.BasicBlock, preds []*ssa.BasicBloc
 	}
 	so := vc.w.so.sortOf(phi.Type())
 	return &sym{t: vc.define("phi_"+phi.Comment, so, t), typ: phi.Type()}
+}
+
+func headerPos(b *ssa.BasicBlock) token.Pos {
+	for _, in := range b.Instrs {
+		if in.Pos().IsValid() {
+			return in.Pos()
+		}
+	}
+	for _, s := range b.Succs {
+		for _, in := range s.Instrs {
+			if in.Pos().IsValid() {
+				return in.Pos()
+			}
+		}
+	}
+	return token.NoPos
 }
 
 func (f *frame) loopClauses(li *loopInfo) []*Clause {
@@ -1276,6 +1322,28 @@ func (f *frame) staticKeysOfAddr(a ssa.Value) []string {
 func (f *frame) scanCallMods(li *loopInfo, call ssa.CallInstruction) {
 	vc := f.vc
 	if _, isGo := call.(*ssa.Go); isGo {
+		c, callee := f.calleeContract(call.Common())
+		if c != nil {
+			env2 := f.calleeTypeEnv(c, call.Common(), callee)
+			for _, m := range c.SpawnMod {
+				switch {
+				case m.Star:
+					li.modAll = true
+				case m.Ghost != "":
+					if k, _, ok := vc.ghostKey(m.Ghost); ok {
+						li.modKeys[k] = true
+					}
+				case m.Heap != "":
+					for _, k := range env2.heapKeysOfSpec(m.Heap) {
+						li.modKeys[k] = true
+					}
+				default:
+					for _, kl := range env2.modPlace(m.Place) {
+						li.modKeys[kl.key] = true
+					}
+				}
+			}
+		}
 		return
 	}
 	if _, isDefer := call.(*ssa.Defer); isDefer {
@@ -1388,6 +1456,7 @@ func (f *frame) enterLoop(li *loopInfo, b *ssa.BasicBlock, preds []*ssa.BasicBlo
 		return m
 	}
 	envE := f.env(pre, f.oldSt)
+	envE.pointBlock, envE.pointIdx = b, 0
 	for k, v := range names(entryVals) {
 		envE.vars[k] = v
 	}
@@ -1398,7 +1467,7 @@ func (f *frame) enterLoop(li *loopInfo, b *ssa.BasicBlock, preds []*ssa.BasicBlo
 			label = fmt.Sprintf("i%d", i)
 		}
 		props := cl.Props
-		vc.oblige(fmt.Sprintf("inv-entry%d", li.ordinal), label, reach, envE.boolExpr(cl.E), b.Instrs[0].Pos(), cl.Src, props)
+		vc.oblige(fmt.Sprintf("inv-entry%d", li.ordinal), label, reach, envE.boolExpr(cl.E), headerPos(b), cl.Src, props)
 	}
 	// havoc
 	cur := pre.clone()
@@ -1408,6 +1477,7 @@ func (f *frame) enterLoop(li *loopInfo, b *ssa.BasicBlock, preds []*ssa.BasicBlo
 		// a loop that reaches an unspecified callee: remember
 		hv := vc.fresh("loophv", "Bool")
 		cur.havocked = or(pre.havocked, hv)
+		li.headSt = cur.clone()
 	} else {
 		var lmods []ModLoc
 		hasLoopMod := false
@@ -1495,6 +1565,7 @@ func (f *frame) enterLoop(li *loopInfo, b *ssa.BasicBlock, preds []*ssa.BasicBlo
 	}
 	// assume invariants
 	envH := f.env(cur, f.oldSt)
+	envH.pointBlock, envH.pointIdx = b, 0
 	for k, v := range names(li.phiSyms) {
 		envH.vars[k] = v
 	}
@@ -1539,14 +1610,31 @@ func (f *frame) backEdge(from *ssa.BasicBlock, li *loopInfo, cond string, st *st
 
 // closeLoops emits, per loop, the invariant-preservation and loop-frame obligations over the join of all
 // its back edges (one obligation per clause, independent of how many `continue` statements the body has).
-func (f *frame) closeLoops() {
+func (f *frame) closeLoops(visited map[*ssa.BasicBlock]bool) {
 	vc := f.vc
 	var lis []*loopInfo
 	for _, li := range f.loops {
 		lis = append(lis, li)
 	}
-	sort.Slice(lis, func(i, j int) bool { return lis[i].ordinal < lis[j].ordinal })
+	// inner loops (higher ordinal) first
+	sort.Slice(lis, func(i, j int) bool { return lis[i].ordinal > lis[j].ordinal })
 	for _, li := range lis {
+		if li.closed {
+			continue
+		}
+		if visited != nil {
+			all := true
+			for b := range li.blocks {
+				if !visited[b] {
+					all = false
+					break
+				}
+			}
+			if !all {
+				continue
+			}
+		}
+		li.closed = true
 		if len(li.backs) == 0 {
 			continue
 		}
@@ -1560,6 +1648,7 @@ func (f *frame) closeLoops() {
 		st := vc.mergeStates(conds, sts)
 		cond := vc.define(fmt.Sprintf("latch%d", li.ordinal), "Bool", or(conds...))
 		env := f.env(st, f.oldSt)
+		env.pointBlock, env.pointIdx = b, 0
 		for _, in := range b.Instrs {
 			phi, ok := in.(*ssa.Phi)
 			if !ok {
@@ -1592,7 +1681,31 @@ func (f *frame) closeLoops() {
 			if label == "" {
 				label = fmt.Sprintf("i%d", i)
 			}
-			vc.oblige(fmt.Sprintf("inv-keep%d", li.ordinal), label, cond, env.boolExpr(cl.E), b.Instrs[0].Pos(), cl.Src, cl.Props)
+			vc.oblige(fmt.Sprintf("inv-keep%d", li.ordinal), label, cond, env.boolExpr(cl.E), headerPos(b), cl.Src, cl.Props)
+		}
+		// per-iteration (two-state) clauses: iter(e) is the value of e at the head of this iteration
+		if f.c != nil && !f.inlined {
+			ienv := f.env(li.headSt, f.oldSt)
+			for phi, s := range li.phiSyms {
+				if phi.Comment == "rangeindex" {
+					ienv.vars["idx"] = s
+				} else if phi.Comment != "" {
+					ienv.vars[phi.Comment] = s
+				}
+			}
+			ienv.pointBlock, ienv.pointIdx = b, 0
+			// idx denotes the element processed in this iteration, inside and outside iter()
+			if v, ok := env.vars["idx"]; ok {
+				ienv.vars["idx"] = v
+			}
+			env.iterEnv = ienv
+			for i, cl := range f.c.LoopStep[li.ordinal] {
+				label := cl.Label
+				if label == "" {
+					label = fmt.Sprintf("s%d", i)
+				}
+				vc.oblige(fmt.Sprintf("step%d", li.ordinal), label, cond, env.boolExpr(cl.E), headerPos(b), cl.Src, cl.Props)
+			}
 		}
 		// loop frame: relative to the function entry (or loop entry when the loop has its own modifies)
 		if f.c != nil && !f.inlined && !li.modAll {
